@@ -839,6 +839,39 @@ fn conn(r: &mut Rng, _i: u64, cycles: bool) -> Vec<String> {
     l.push("settle".into());
     l.push("alloccheck A".into());
     l.push("alloccheck B".into());
+    if r.chance(1, 3) {
+        // shutdown with a request still held by the application of one side: everything else of both
+        // sides is dropped, the dispatchers must keep running (no Goodbye) until the request is answered
+        let c = r.below(2) as usize;
+        let v = 1 - c;
+        l.push(format!("connect cH {} cH wait=1", sides[c]));
+        l.push("settle".into());
+        l.push(format!("inspect iH {} rH", sides[v]));
+        l.push("settle".into());
+        let mut ops = vec![
+            format!("droplistener {}", sides[v]),
+            format!("dropclient {}", sides[v]),
+            format!("dropclient {}", sides[c]),
+        ];
+        if r.bool() {
+            ops.push(format!("droplistener {}", sides[c]));
+        }
+        while !ops.is_empty() {
+            let i = r.below(ops.len() as u64) as usize;
+            l.push(ops.remove(i));
+            if r.chance(1, 3) {
+                l.push("settle".into());
+            }
+        }
+        l.push("settle".into());
+        l.push("settle".into());
+        if r.bool() {
+            l.push(format!("reqdrop {} rH", sides[v]));
+        } else {
+            l.push(format!("reqreject xH {} rH {}", sides[v], r.bool() as u8));
+        }
+        l.push("settle".into());
+    }
     l.push("droplistener A".into());
     l.push("droplistener B".into());
     l.push("settle".into());
